@@ -2,7 +2,7 @@
    Property theorems only; proofs in proofs/Graph*.v (see design.d/C09.md). *)
 From Coq Require Import List NArith Bool Relations.
 From SV Require Import lib.Bytes lib.Closure model.Graph model.GraphDump model.GraphInv model.GraphTree model.GraphTreeInv
-  gen.GenGraph proofs.GraphNodes proofs.GraphProofs proofs.GraphTables proofs.GraphTrans proofs.GraphTreeSim proofs.GraphTreeOps.
+  gen.GenGraph proofs.GraphNodes proofs.GraphProofs proofs.GraphTables proofs.GraphTrans proofs.GraphTreeSim proofs.GraphTreeOps proofs.GraphStepTrans.
 Import ListNotations.
 Open Scope N_scope.
 
@@ -383,6 +383,23 @@ Proof.
   exists 3, (removelast recycle_tree_witness), (OpBase (OpDefineStep (KStep, plan_label) treeA [] [] [] [] NDefault)).
   vm_compute. repeat split; reflexivity.
 Qed.
+
+(* transitions_documented, step rows: for every one of the 15 operations, a step row that exists
+   before and after the transaction keeps its state, is made PENDING from SUCCEEDED / FAILED by the
+   state propagation, or is the subject of the operation and receives the state the operation
+   assigns (dispatch: RUNNING / CHECKING; exec_end: SUCCEEDED / FAILED / PENDING; reset_to_pending,
+   validate, define_step: PENDING; reset_interrupted: RUNNING -> FAILED / PENDING, CHECKING -> PENDING). *)
+Theorem C09_step_transitions_documented :
+  forall o s l a b, inv_core_b s = true ->
+    sstate_of l s = Some a -> sstate_of l (apply_op_t s o) = Some b -> step_move_b o l a b = true.
+Proof. exact step_transitions_documented. Qed.
+
+Example C09_step_move_excludes :
+  step_move_b (OpBase (OpUpdateHashes CExternal [])) [65] SPending SRunning = false /\
+  step_move_b (OpBase (OpDispatch [65])) [66] SPending SRunning = false /\
+  step_move_b (OpBase OpResetInterrupted) [65] SSucceeded SFailed = false /\
+  step_move_b (OpRegisterTree root_key [100; 47]) [65] SFailed SSucceeded = false.
+Proof. vm_compute. repeat split; reflexivity. Qed.
 
 (* ------------------------------------------------------------------------------------------ *)
 (* 5. the hand-written tables of the model equal the tables regenerated from the source        *)
